@@ -2005,6 +2005,10 @@ def tag_fn(ctx: "Wtp", token: str) -> None:
         name = m.group(1).lower()
         attrs = m.group(2)
         also_end = m.group(0).endswith("/>")
+        if also_end and attrs.endswith("/"):
+            # "/>" directly after an unquoted value (<ref name=x/>): the
+            # slash belongs to the tag, not to the value
+            attrs = attrs[:-1]
 
         # Some templates have markers like <1> in their arguments.  Only parse
         # valid HTML tags in template arguments (tags like <math> can and
